@@ -190,6 +190,8 @@ void Ctx::c10() {
             }
             if (!props_equal(p.props, expect)) diff += " properties(" + props_str(p.props) + " vs " + props_str(expect) + ")";
             if (!diff.empty()) fail("C10", "connect_differs_from_configuration", "connection " + std::to_string(ci) + ": CONNECT differs in:" + diff);
+            // the same comparison is C17's "the decoded fields equal the values supplied" for the CONNECT packet
+            if (!diff.empty()) fail("C17", "connect_fields_differ", "connection " + std::to_string(ci) + ": CONNECT decodes to other values than configured:" + diff);
         }
         // exactly one CONNECT, (b) nothing but AUTH before a successful CONNACK was delivered
         int connects = 0;
@@ -410,10 +412,28 @@ void Ctx::c12() {
             for (auto& rr : s.net.reads) if (rr.conn == (int)ci && rr.end == sim::ReadRec::error && rr.t_end < alive_until) { alive_until = rr.t_end; alive_seq = rr.seq_end; }
         }
         ns_t slack = 1 * SEC + stall_between(ca.delivered_seq, alive_seq);
-        ns_t deadline = ca.delivered_t + (ns_t)K * SEC + slack;
+        // The client keeps one write outstanding per connection: while the transport has not completed a write
+        // (send buffer full, completion handler late), nothing else - a PINGREQ included - can be handed over, and
+        // the CONNACK is only processed once the write of the CONNECT/AUTH has completed. That waiting is transport
+        // latency, not the client's: a deadline that falls into such a write moves to the end of that write.
+        const ns_t NEVER = std::numeric_limits<ns_t>::max();
+        auto blocked_until = [&](ns_t t) -> ns_t {
+            for (auto& g2 : s.net.groups) if (g2.conn == (int)ci && g2.t_start <= t && (!g2.done || g2.t_done > t)) return g2.done ? g2.t_done : NEVER;
+            return t;
+        };
+        ns_t base = blocked_until(ca.delivered_t);
+        if (base == NEVER) continue;
+        ns_t deadline = base + (ns_t)K * SEC + slack;
         size_t i = 0;
         while (deadline < alive_until) {
+            { ns_t b = blocked_until(deadline); if (b == NEVER) break; if (b > deadline) { deadline = b; if (deadline >= alive_until) break; } }
             if (i >= pings.size()) {
+                // bytes the client handed to the transport in time but which never reached the broker (connection torn
+                // down while they were in flight) cannot be inspected: no verdict
+                size_t got = 0; for (int ri : recv_by_conn[ci]) got = std::max(got, B.recv[ri].off_end);
+                bool unseen = false;
+                for (auto& g2 : s.net.groups) if (g2.conn == (int)ci && g2.t_start <= deadline && g2.off_end > got) unseen = true;
+                if (unseen) break;
                 fail("C12", "pingreq_missing", "connection " + std::to_string(ci) + " (K=" + std::to_string(K) + "): no PINGREQ handed to the transport by t=" +
                      std::to_string(deadline / 1000000) + " ms (" + (i ? "previous PINGREQ" : "CONNACK") + " + K + slack), connection in use until t=" + std::to_string(alive_until / 1000000) + " ms");
                 break;
